@@ -34,6 +34,11 @@ func (fs *LocalFS) SetSymlinkPermissions(n NodeSymlink) error {
 	return nil
 }
 
+func (fs *LocalFS) setSymlinkTimes(dst string, mtime time.Time) error {
+	// The time of a link itself is not set on Windows
+	return nil
+}
+
 func (fs *LocalFS) CreateDevice(n NodeDevice) error {
 	return errors.New("Device nodes not supported on this platform")
 }
